@@ -474,3 +474,78 @@ def iter_ops(case):
         yield rec
         if r == "internal" and not o.get("probe"):
             return
+
+
+def small_configs():
+    """complete small scope for the thorough tier: 2-3 seats, stacks <= 3, blinds 1/2 or 1/1, optional ante 1"""
+    import itertools
+    from card_utils.deck import cards as CARDS
+    out = []
+    for game in ("NLHE", "PLO"):
+        k = 2 if game == "NLHE" else 4
+        for n in (2, 3):
+            for stacks in itertools.product(range(0, 4), repeat=n):
+                if sum(1 for x in stacks if x > 0) < 2:
+                    continue
+                for blinds in ([1, 2], [1, 1]):
+                    for ante in (0, 1):
+                        deck = list(CARDS)
+                        hands = [deck[i * k:(i + 1) * k] for i in range(n)]
+                        out.append({"game": game, "n": n, "deck": deck[n * k:], "hands": hands, "stacks": list(stacks),
+                                    "board": [], "ante": ante, "blinds": list(blinds), "runouts": 1, "f": [0, 1], "cap": 0,
+                                    "samp": [0, 1]})
+    return out
+
+
+def enumerate_tree(case, max_leaves=400):
+    """every action sequence of a small table: DFS over the real engine, trying every type x amount at every state;
+    yields one case per maximal path, with the rejected candidates of each node as probes"""
+    try:
+        root = new_game(case)
+    except Exception:
+        yield {**case, "ops": []}
+        return
+    leaves = [0]
+
+    def rec(g, ops):
+        if leaves[0] >= max_leaves:
+            return
+        if g.is_complete or len(ops) > 60:
+            leaves[0] += 1
+            yield {**case, "ops": list(ops)}
+            return
+        p = g.action
+        stack = g.stacks[p] if p is not None else 0
+        cands = []
+        for t in TYPES:
+            for a in [None] + list(range(0, stack + 2)):
+                cands.append([p, t, a])
+        accepted = []
+        probes = []
+        for c in cands:
+            g2 = copy.deepcopy(g); g2._cv_fake = copy.copy(g._cv_fake)
+            r, _ = apply_op(g2, c)
+            if r == "ok":
+                accepted.append((c, g2))
+            else:
+                probes.append({"o": c, "probe": True})
+        if not accepted:
+            leaves[0] += 1
+            yield {**case, "ops": list(ops) + probes}
+            return
+        # equivalent spellings (amount None vs explicit) lead to the same state: keep one continuation each
+        seen = set()
+        for c, g2 in accepted:
+            sig = (tuple(g2.stacks), tuple(sorted(g2.pot.balances.items())), g2.street, g2.action, tuple(sorted(g2.last_actions.items())), g2.is_complete)
+            if sig in seen:
+                probes.append({"o": c, "probe": True})
+                continue
+            seen.add(sig)
+        seen = set()
+        for c, g2 in accepted:
+            sig = (tuple(g2.stacks), tuple(sorted(g2.pot.balances.items())), g2.street, g2.action, tuple(sorted(g2.last_actions.items())), g2.is_complete)
+            if sig in seen:
+                continue
+            seen.add(sig)
+            yield from rec(g2, list(ops) + probes + [{"o": c}])
+    yield from rec(root, [])
